@@ -1,5 +1,5 @@
 """C06 — emu-sv operators: CPU and batched (GPU) paths agree (structural clause)."""
-from ..rules import device, observables
+from ..rules import drivers, device, observables
 
 META = {
     "title": "emu-sv operators apply exactly the Hamiltonian and Lindbladian they represent",
@@ -23,3 +23,4 @@ def check(ctx):
     device.batched_kernel(ctx)
     observables.lindbladian_structure(ctx)
     observables.hamiltonian_structure(ctx)
+    drivers.phase_shortcut(ctx)
